@@ -195,7 +195,7 @@ static int c08_run(Ctx &ctx) {
       Method m = same ? m0 : g::any_method();
       Bytes s = g::coin(1, 10) ? Bytes("$zz$bad") : g::valid_setting(m, o).s;
       c.set("s" + std::to_string(i), s);
-      c.set("p" + std::to_string(i), g::phrase(64));
+      c.set("p" + std::to_string(i), g::phrase(511));  // all length classes: > 64 bytes reaches the HMAC key-hashing paths
     }
     int T = (int)g::pick(2, 16);
     c.seti("threads", T);
